@@ -179,7 +179,7 @@ func ptBuildMBR(r *rand.Rand, s map[string]string) (t *mbr.Table, norm map[strin
 		}
 		return 2048 * uint32(i+1)
 	}
-	typ := map[string]int{"x83": 0x83, "xee": 0xee, "xff": 0xff, "x0c": 0x0c}[s["type"]]
+	typ := map[string]int{"x83": 0x83, "xee": 0xee, "xff": 0xff, "x0c": 0x0c, "x00": 0x00}[s["type"]]
 	for i := 0; i < n; i++ {
 		p := &mbr.Partition{Index: i + 1, Bootable: s["boot"] == "yes" && i == 0, Type: mbr.Type(typ), Start: val(s["start"], i), Size: val(s["size"], i)}
 		t.Partitions = append(t.Partitions, p)
@@ -501,7 +501,8 @@ func ptSigs(prop string, tp ptTuple, ev map[string]any) ([]string, string) {
 		switch {
 		case rd["res"] != "ok" || rd["kind"] != k:
 			sig := fmt.Sprintf("%s-over-%s-read-as-%v-%v", k, tp.S["prev"], rd["res"], rd["kind"])
-			if tp.S["count"] == "0" {
+			if tp.S["count"] == "0" || (k == "mbr" && tp.S["type"] == "x00") {
+				// no entry, or only entries with the type byte of an unused slot: an MBR without partitions of its own
 				sig += "-empty-table"
 			}
 			return []string{sig}, fmt.Sprintf("table %s written ok but partition.Read gives res=%v kind=%v", js, rd["res"], rd["kind"])
